@@ -34,7 +34,7 @@ ASSUMPTIONS = [
     "reference serializer in pbt/props/c16.py (dataclass field order, mashumaro's documented scalar encodings)",
     "the AST_TEST dialect's own output is not modelled (only its isolation); corrupt-payload errors may be any exception",
 ]
-FLOORS = {"programs:failing-serialization": 0.2, "programs:failing-deserialization": 0.2}
+FLOORS = {"programs:failing-serialization": 0.1, "programs:failing-deserialization": 0.2}
 
 O_SKIP, O_SORT, O_EXPL, O_TEST, O_INDEX, O_DIALECT = 1, 2, 4, 8, 16, 32
 FMTS = ["dict", "json", "msgpack", "yaml"]
